@@ -401,3 +401,74 @@ fn check_opcode(exchange: &Exchange<'_>, opcode: OpCode) -> Result<(), Error> {
         Err(ErrorCode::Invalid.into())
     }
 }
+
+/// Thin public wrappers around the crate-private `SessionParameters` TLV codec for the
+/// verification harness (add-only, no behaviour change).
+#[cfg(feature = "verif")]
+pub mod verif {
+    use crate::error::Error;
+    use crate::tlv::{FromTLV, TLVElement, TLVTag, TLVWrite, ToTLV};
+
+    /// `(sii, sai, sat, dm_revision, im_revision, spec_version, max_paths_per_invoke)`
+    pub type SessionParametersFields = (
+        Option<u32>,
+        Option<u32>,
+        Option<u16>,
+        Option<u16>,
+        Option<u16>,
+        Option<u32>,
+        Option<u16>,
+    );
+
+    fn build(f: &SessionParametersFields) -> super::SessionParameters {
+        super::SessionParameters {
+            sii: f.0,
+            sai: f.1,
+            sat: f.2,
+            dm_revision: f.3,
+            im_revision: f.4,
+            spec_version: f.5,
+            max_paths_per_invoke: f.6,
+        }
+    }
+
+    /// Encode session parameters with `ToTLV::to_tlv`.
+    pub fn session_parameters_to_tlv<W: TLVWrite>(
+        f: &SessionParametersFields,
+        tag: &TLVTag,
+        tw: W,
+    ) -> Result<(), Error> {
+        build(f).to_tlv(tag, tw)
+    }
+
+    /// Encode session parameters with `ToTLV::tlv_iter`, flattened to bytes.
+    pub fn session_parameters_tlv_iter_bytes(
+        f: &SessionParametersFields,
+        tag: TLVTag,
+        out: &mut dyn FnMut(Result<u8, Error>),
+    ) {
+        let p = build(f);
+        for b in p
+            .tlv_iter(tag)
+            .flat_map(crate::tlv::TLV::result_into_bytes_iter)
+        {
+            out(b);
+        }
+    }
+
+    /// Decode session parameters with `FromTLV::from_tlv`.
+    pub fn session_parameters_from_tlv(
+        element: &TLVElement<'_>,
+    ) -> Result<SessionParametersFields, Error> {
+        let p = super::SessionParameters::from_tlv(element)?;
+        Ok((
+            p.sii,
+            p.sai,
+            p.sat,
+            p.dm_revision,
+            p.im_revision,
+            p.spec_version,
+            p.max_paths_per_invoke,
+        ))
+    }
+}
